@@ -54,7 +54,7 @@ func C11(c *vf.Ctx) {
 		design: &designCheck{cfg: sys.Config{Small: true, Soft: true, Threads: []string{"c1"}}, kinds: []string{"start", "hstep", "relw", "deliver", "cancel"},
 			maxRPC: 2, maxStims: 5, invs: "TypeOK StreamInvs OneWrite MetaScoped"},
 		designT: &designCheck{cfg: sys.Config{Small: true, Soft: true, Threads: []string{"c1", "c2"}}, kinds: []string{"start", "hstep", "relw", "deliver", "cancel"},
-			maxRPC: 2, maxStims: 6, invs: "TypeOK StreamInvs OneWrite MetaScoped"},
+			maxRPC: 2, maxStims: 5, invs: "TypeOK StreamInvs OneWrite MetaScoped"},
 	}
 	runSysFamily(c, fam, nT, nR)
 	MetaCodec(c)
@@ -209,6 +209,7 @@ type muxSrv struct {
 type muxDesc struct{}
 
 func (muxDesc) NumMethods() int { return 4 }
+
 // badEnc is the server's encoding: a request that starts with "!bad" does not decode.
 type badEnc struct{ dir.GateEnc }
 
